@@ -55,7 +55,14 @@ _A = ['Type 1/2: the on-demand loading of the memory reader (16-byte READ / RALL
       '(inherent in the protocol) and is not injected.  Read failures while a write loads more memory (sector select / READ '
       'faults outside synchronize) are monitor-only',
       'Type 1/2: NXP / Broadcom product classes (NTAG203/213/215/216, Ultralight, Topaz, Topaz-512) are reached through '
-      'nfc.tag.activate and share the generic read/write code; their read-protection / password features are not exercised']
+      'nfc.tag.activate and share the generic read/write code; their read-protection / password features are not exercised',
+      'layers around the tag classes are monitor-only (no Coq model): nfc.tag.Tag.format / Tag.ndef caching (histories read -> '
+      'format(wipe) -> write on one tag object: the write is judged against the layout valid after format() and compared with the '
+      'model\'s write on the memory format() left), nfc.clf.ContactlessFrontend.exchange (all multi-sector Type 2 histories, every '
+      'second generated layout of C01 / C03 and every replay run through a real ContactlessFrontend over a fake device that '
+      'forwards to the simulated tag), the PN532 / PN533 Type 1 transport (_tt1_send_cmd_recv_rsp: RSEG emulation, READ8 / '
+      'WRITE-E8 through CIU registers) for Type 1 tags up to 2048 bytes on the chip simulator harness/sim/chipsets.py.  Other '
+      'drivers, the Type 2 transport of the drivers and sense() of the real frontend are not exercised by this part']
 ASSUMPTIONS = {'C01': _A,
                'C02': _A + ['power cut = the tag executes the first k state-changing commands completely and nothing '
                             'afterwards (a WRITE is atomic for its page / block / byte)',
@@ -75,13 +82,17 @@ RULE = {
     'C01': 'T1/T2: layouts from a grammar (data-area size, 0-3 control TLVs with reserved ranges before/inside/directly '
            'after/beyond the message and beyond the data area, NULL/unknown TLV padding) x lengths {0,1,253..256,cap-1,cap,'
            'cap+1,range-boundary,random} x random contents x random previous contents; non-trivial = the value crosses a '
-           'reserved range, the 254/255 boundary, or is empty / at capacity',
+           'reserved range, the 254/255 boundary, or is empty / at capacity; plus histories read -> format(wipe) -> write on one tag '
+           'object (new message equal to / sharing bytes with / unrelated to the one read before), Type 1 tags of 512..2048 bytes '
+           'behind the real pn532 / pn533 drivers, multi-sector Type 2 tags behind a real ContactlessFrontend',
     'C02': 'T1/T2: (old length, new length) pairs on both sides of 254/255 x layouts with unaligned NDEF TLV over-represented '
            'x every cut point k; two-operation histories on one tag object: write fails transiently at command k1 (k1 = 1 with '
-           'every error kind, command lost / response lost, and other k1), retry cut at every k2; non-trivial = every (layout, lengths, k)',
+           'every error kind, command lost / response lost, and other k1), retry cut at every k2; read -> format(wipe) -> write on '
+           'one tag object with every cut point of the write; non-trivial = every (layout, lengths, k)',
     'C03': 'T1/T2: writes as C01 plus format with and without wipe; reserved ranges directly after an empty NDEF TLV, '
            'directly after the message and beyond the data area over-represented; non-trivial = a reserved byte shares a '
-           'write unit with an NDEF-area byte or lies inside the written region',
+           'write unit with an NDEF-area byte or lies inside the written region; read -> format -> write histories on one tag '
+           'object incl. Topaz-512 layouts whose NDEF TLV sits before byte 22 (format moves it)',
 }
 
 
@@ -1138,6 +1149,98 @@ def topaz_layout(rng, big, off=None):
     return L
 
 
+def driver_world(drv, sim):
+    """a real ContactlessFrontend with a real nfc.clf.pn532 / pn533 Device whose chip is the host-link simulator of
+    harness/sim/chipsets.py (C13; used read-only), the simulated Type 1 tag in its field"""
+    from sim import c13_world as W
+
+    def remote(data):
+        try:
+            return bytes(sim.command(bytearray(data)))
+        except nfc.clf.CommunicationError:
+            return b''
+    w = W.World(drv)
+    w.sim.remote = remote
+    w.clf.target = sim.target()
+    return w
+
+
+def driver_case(ck, bt, drv, L, old, data, pid, rng):
+    """Type 1 Tag with more than 1 KByte behind the real PN532 / PN533 driver (RSEG is emulated by the driver with sixteen READ8,
+    READ8 / WRITE-E8 are sent through CIU registers): write through the driver, read back through the driver and directly."""
+    mem = bytearray(L.mem)
+    L2 = Layout()
+    L2.__dict__.update(L.__dict__)
+    L2.mem = mem
+    L2.put_message(mem, old)
+    case = {'layout': L2.describe(), 'old': hx(old), 'driver': drv, 'data': hx(data)}
+    sim = L2.sim()
+    w = driver_world(drv, sim)
+    tag = nfc.tag.activate(w.clf, w.clf.target)
+    got = {}
+
+    def rd():
+        got['o'] = bytes(tag.ndef.octets) if tag is not None and tag.ndef is not None else None
+    r0 = classify(rd)
+    if pid == 'C01' and (r0 != 'ok' or got['o'] != old):
+        ck.violation('t1d:driver-%s:read' % drv, 'a %d byte message on a %d byte Type 1 Tag is not read through the %s driver (%s)' % (len(old), len(mem), drv, r0), case)
+        return
+    if r0 != 'ok' or got['o'] is None:
+        return
+
+    def wr():
+        tag.ndef.octets = data
+    r1 = classify(wr)
+    fr, fcap, foct = fresh_view(L2, sim.mem)
+    impl = ' | '.join([r1, show_cmds(sim.log), hx(sim.mem), fr, fcap])
+    bt.add('t1_write %s %s' % (model_args(L2), hexarg(data)), impl, 't1d-write-through-' + drv, case)
+    s3 = L2.sim(sim.mem)
+    t3 = nfc.tag.activate(driver_world(drv, s3).clf, s3.target())
+
+    def rd3():
+        got['o3'] = bytes(t3.ndef.octets) if t3 is not None and t3.ndef is not None else None
+    r3 = classify(rd3)
+    ck.case(('t1d', 'driver', drv, hx(mem[:32]), len(mem), hx(data[:16]), len(data)), True,
+            {'tag': 't1d', 'driver': drv, 'size': len(mem), 'old_len': len(old), 'len': len(data), 'result': r1, 'writes': len(sim.log), 'read_through_driver': r3})
+    ck.count('t1d-through-real-%s-driver' % drv)
+    if pid == 'C01' and len(data) <= L2.cap_expected:
+        if r1 != 'ok':
+            ck.violation('t1d:driver-%s:write-fails' % drv, 'assigning %d octets through the %s driver fails with %s' % (len(data), drv, r1), case)
+        elif foct != data:
+            ck.violation('t1d:driver-%s:readback' % drv, 'a fresh reader does not read back what was written through the %s driver' % drv, dict(case, fresh=fr[:120]))
+        elif r3 != 'ok' or got['o3'] != data:
+            ck.violation('t1d:driver-%s:readback-driver' % drv, 'a fresh reader behind the %s driver does not read back the octets written (%s)' % (drv, r3), case)
+    if pid == 'C03':
+        monitor_frame(ck, L2, sim, 'NDEF write through the %s driver' % drv, 'driver-' + drv, case)
+
+
+def big_t1_layout(rng, size):
+    """Topaz-512 style header on a Type 1 Tag with `size` bytes (up to 2048: segments 8..15 exist above 1 KByte)"""
+    L = Layout()
+    L.kind, L.first, L.unit, L.hr, L.dend, L.oneway = 't1d', 12, 8, bytes([0x12, 0x4C]), size, set()
+    L.R = set(range(104, 128))
+    mem = bytearray(rng.randrange(1, 256) for _ in range(size))
+    mem[0:12] = bytes([1, 2, 3, 4, 5, 6, 7, 0, 0xE1, 0x10, size // 8 - 1, 0])
+    mem[12:22] = bytes.fromhex('0103f230330203f00203')
+    L.off = 22 + rng.choice([0, 0, 1, 5])
+    mem[22:L.off] = bytes(L.off - 22)
+    mem[L.off], mem[L.off + 1] = 3, 0
+    L.mem = mem
+    f = L.free_after_tag()
+    L.cap_expected = (f + 1) - (4 if f + 1 > 256 else 2)
+    return L
+
+
+def driver_cases(ck, bt, pid, rng, reps):
+    for i in range(reps):
+        for drv in ('pn532', 'pn533'):
+            L = big_t1_layout(rng, 2048 if i == 0 else rng.choice([1152, 1280, 1536, 2048, 512]))
+            old = rnd(rng, rng.choice([0, 40, L.cap_expected, rng.randrange(0, L.cap_expected + 1)]))
+            data = rnd(rng, rng.choice([L.cap_expected, L.cap_expected - rng.randrange(0, 200), rng.randrange(0, L.cap_expected + 1)]))
+            driver_case(ck, bt, drv, L, old, data, pid, rng)
+    bt.flush()
+
+
 def run_write_on(L, old, new):
     mem = bytearray(L.mem)
     L2 = Layout()
@@ -1406,6 +1509,9 @@ def replay(ck, pid, mr, path):
         r = case['sector']
         op2 = ('write', bytes.fromhex(r['op2'][1])) if r['op2'][0] == 'write' else ('format', r['op2'][1])
         sector_case(ck, bt, L, bytes.fromhex(case['old']), bytes.fromhex(r['d1']), r['j'], r['packet'], r['kind'], op2, pid, ck.rng)
+    elif 'driver' in case:
+        L.mem[L.off], L.mem[L.off + 1] = 3, 0
+        driver_case(ck, bt, case['driver'], L, bytes.fromhex(case['old']), bytes.fromhex(case['data']), pid, ck.rng)
     elif 'fmtwrite' in case:
         r = case['fmtwrite']
         L.mem[L.off], L.mem[L.off + 1] = 3, 0       # the recorded layout holds the old message; fmtwrite_case stores it again
@@ -1440,6 +1546,8 @@ def run(ck, pid, mr):
     bt.flush()
     if pid in ('C01', 'C03') and 't2' in KINDS:
         sector_cases(ck, bt, pid, rng, 3 if quick else 20)
+    if pid in ('C01', 'C03') and 't1d' in KINDS:
+        driver_cases(ck, bt, pid, rng, 3 if quick else 25)
     for kind in KINDS:
         if pid in ('C01', 'C03'):
             end_of_area_cases(ck, bt, pid, rng, kind, 3 if quick else 12)
